@@ -239,11 +239,14 @@ func (s *Statement) Pipeline(task *pod_info.PodInfo, hostname string, updateTask
 		previousResourceClaimInfo = task.ResourceClaimInfo.Clone()
 	}
 
+	// the releasing entry of the task that the move to a different GPU replaces in the node's pod table
+	var replacedTaskOnNode *pod_info.PodInfo
 	if isSharedAndMoveToDifferentGPU {
 		log.InfraLogger.V(6).Infof(
 			"Task: <%v/%v> already exists on node: <%v> on gpu index of: <%v>, moving it to index: <%v>",
 			task.Namespace, task.Name, hostname, taskOnNode.GPUGroups, task.GPUGroups)
 		previousGpuGroup = taskOnNode.GPUGroups
+		replacedTaskOnNode = taskOnNode
 		if err := node.ConsolidateSharedPodInfoToDifferentGPU(task); err != nil {
 			log.InfraLogger.Errorf("Failed to unevict task <%v/%v> to node <%v> in Session <%v>: %v",
 				task.Namespace, task.Name, hostname, s.sessionID, err)
@@ -280,7 +283,8 @@ func (s *Statement) Pipeline(task *pod_info.PodInfo, hostname string, updateTask
 		nextNode:                  hostname,
 		message:                   fmt.Sprintf("Pod %s/%s was pipelined to node %s", task.Namespace, task.Name, node.Name),
 		reverseOperation: func() error {
-			return s.unpipeline(task, previousNode, previousStatus, previousGpuGroup, previousResourceClaimInfo, previousIsVirtualStatus)
+			return s.unpipeline(task, previousNode, previousStatus, previousGpuGroup, previousResourceClaimInfo,
+				previousIsVirtualStatus, replacedTaskOnNode)
 		},
 	})
 	task.IsVirtualStatus = true
@@ -431,7 +435,7 @@ func (s *Statement) commitPipeline(task *pod_info.PodInfo, message string) {
 func (s *Statement) unpipeline(
 	task *pod_info.PodInfo, previousNode string, previousStatus pod_status.PodStatus, previousGpuGroups []string,
 	previousResourceClaimInfo bindrequest_info.ResourceClaimInfo,
-	previousIsVirtualStatus bool) error {
+	previousIsVirtualStatus bool, replacedTaskOnNode *pod_info.PodInfo) error {
 	// Only update status in session
 	job, found := s.ssn.ClusterInfo.PodGroupInfos[task.Job]
 	if found {
@@ -455,6 +459,12 @@ func (s *Statement) unpipeline(
 		if err := node.RemoveTask(task); err != nil {
 			log.InfraLogger.Errorf("Failed to unpipeline task <%v/%v> from node <%v> in Session <%v>: %v",
 				task.Namespace, task.Name, hostname, s.sessionID, err)
+		}
+		if replacedTaskOnNode != nil {
+			// The pipeline moved an evicted task to a different GPU of the same node: the node kept charging the
+			// releasing task but its entry in the pod table was replaced by the pipelined one. Put it back, so
+			// that un-evicting the task later updates that entry instead of charging the task a second time.
+			node.PodInfos[pod_info.PodKey(task.Pod)] = replacedTaskOnNode
 		}
 	} else {
 		log.InfraLogger.Errorf("Failed to find Node <%s> in Session <%s> index when binding.",
